@@ -75,15 +75,36 @@ def run(ck):
         for v in VALUES + [7, 8]:
             for ch in (False, True, 2):
                 triples.append(("z80", stmt, v, ch) + variants(stmt, v, ch))
+    # sequences: several deferred items in one program (links are resolved in order; a passing deferred @assert, a
+    # fill, an operand must not disturb the ones after it), some ending in a failing deferred @assert / range error
+    SEQ = {"z80": [" ld a, vv1", " ld hl, vv1", " jp vv1", " ld (ix+1), vv1"], "sm83": [" ld a, vv1", " ld hl, vv1", " jp vv1"],
+           "6502": [" lda #vv1", " jmp vv1", " ldx #vv1"]}
+    COMMON = ["@db vv1", "@dw vv1", "@ds 2, vv1", "@assert vv1", "@assert vv1 == $42, \"eq\"", "@db vv1 + 1, vv1", "@assert vv1 > 1"]
+    for _ in range(1500 if thorough else 250):
+        arch = rng.choice(asmk.ARCHES)
+        items = [rng.choice(COMMON + SEQ[arch]) for _ in range(rng.randrange(2, 7))]
+        if not any(it.startswith("@assert") for it in items):
+            items.insert(rng.randrange(len(items)), "@assert vv1")
+        tail = rng.random()
+        if tail < 0.2:
+            items.append("@assert vv1 - $42, \"false at link time\"")
+        elif tail < 0.35:
+            items.append("@db vv1 + 255")
+        stmt = "\n".join(items)
+        triples.append((arch, stmt, 0x42, False) + variants(stmt, 0x42, False))
     # the historical corpus
     triples.append(("sm83", " ldh a, (vv1)", 0xFF80, False) + variants(" ldh a, (vv1)", 0xFF80, False))
     # constructs that need the value immediately
     neednow = []
     for arch, stmt in [("z80", "@org vv1"), ("z80", "@ds vv1"), ("z80", "@align vv1"), ("z80", "@if vv1\n@endif"),
                        ("z80", " bit vv1, a"), ("z80", " rst vv1"), ("sm83", " bit vv1, a"), ("sm83", " rst vv1"),
-                       ("z80", "@db @count vv1 9"), ("z80", "@struct Sx\nf1 vv1\n@endstruct")]:
+                       ("z80", "@db @count vv1 9"), ("z80", "@struct Sx\nf1 vv1\n@endstruct"),
+                       ("z80", "@struct Sx\nf0 1\n@ds vv1\nf1 1\n@endstruct\n@db Sx"), ("sm83", "@struct Sx\nf0 1\n@align vv1\nf1 1\n@endstruct\n@db Sx"),
+                       ("6502", "@struct Sx\n@ds vv1\n@endstruct\n@db Sx"), ("z80", "@each qq, { @count vv1 }\n@db qq\n@endeach"),
+                       ("6502", "@if vv1 == 2\n@db 1\n@endif"), ("sm83", "@org vv1 + 1"), ("z80", " im vv1"), ("z80", " set vv1, (hl)")]:
         for v in (0, 2, 8):
-            neednow.append((arch, stmt, v, False) + variants(stmt, v, False))
+            for ch in (False, True):
+                neednow.append((arch, stmt, v, ch) + variants(stmt, v, ch))
 
     progs = []
     for t in triples + neednow:
